@@ -11,7 +11,10 @@ texts and whole response texts, with Python big integers and byte strings.
   CodeTable     embedded in Model.loop_* (return code -> emit / re-invoke / finish)
   Model         composes them into a per-line prediction (output bytes, callbacks, variables)
 """
+import sys
 from . import spec as S
+if hasattr(sys, "set_int_max_str_digits"):
+    sys.set_int_max_str_digits(0)        # argument texts of 10^5 digits are part of C04's domain
 from .spec import INT, UINT, HEX, BHEX, STR, RW, RO, WO, ERR, DATA_OK, DATA_NEXT, NEXT, OK, HOLD, HEX_OK, HEX_ERR, LIST
 
 NAMECH = frozenset(b"ABCDEFGHIJKLMNOPQRSTUVWXYZ0123456789+#$@_%&")
